@@ -184,7 +184,8 @@ static void end_of_cycle (void) {
   for (int i = 0; i < ENV_MAXCLI; i++) {
     env_cli *c = &env_clients[i];
     if (!c->used || !c->accepted) continue;
-    if (c->driver_closed) { cli_healthy[i] = 0; continue; }
+    if (cli_healthy[i] && ob_rec (cli_ob[i])->gone) cli_healthy[i] = 0;      /* the mudlib destructed it */
+    if (c->driver_closed) continue;       /* still "healthy" here = the driver dropped a user nobody asked it to drop */
     int s = nl_slot_of_fd (c->fd);
     if (!cli_ob[i][0] && s > 0 && all_users[s]->ob && all_users[s]->ob != master_ob) {
       snprintf (cli_ob[i], 64, "/%s", all_users[s]->ob->name);
